@@ -5,44 +5,87 @@ CONSTANT Depth
 
 \* exhaustive check: the read endpoints other than get-sth are functions of the state that change nothing the
 \* invariants speak about, so they are left to the replay (simulation below enumerates them with arguments)
+\* (the refusals differ in the status only: one of them stands for all in the exhaustive check)
+MCSameEffect == RpcFaults \ {"unavailable"}
+RightEndpoint(c) == IF c \in Precerts THEN "add-pre-chain" ELSE "add-chain"
+WrongEndpoint(c) == IF c \in Precerts THEN "add-chain" ELSE "add-pre-chain"
 MCNext ==
   \/ Tick
+  \/ \E f \in FrontEnds, t \in 0..MaxClock : ClockSet(f, t)
   \/ \E k \in 1..MaxTree, r \in Rems : Sequence(k, r)
   \/ \E r \in Rems : Resign(r)
-  \/ \E c \in Certs, ep \in Endpoints : AddChain(c, ep)
-  \/ GetSTH
+  \/ \E c \in Certs, f \in FrontEnds, x \in AddFaults \ MCSameEffect : AddChain(c, RightEndpoint(c), f, x)
+  \/ \E c \in Certs, f \in FrontEnds : AddChain(c, WrongEndpoint(c), f, "none")   \* rejected before anything can go wrong
+  \/ \E f \in FrontEnds, x \in STHFaults \ MCSameEffect : GetSTH(f, x)
 
-StateView == <<now, stored, queue, tree, rootTs, issued, sths, roots>>
+StateView == <<now, clk, stored, queue, tree, rootTs, sigc, issued, sths, roots>>
+\* the exhaustive check carries no served-STH / published-root histories: what they are needed for is said of the
+\* serving step (STHStep), and the root a step serves is the current one
+ExhaustiveView == <<now, clk, stored, queue, tree, rootTs, sigc, issued>>
 
 End == [op |-> "End"]
 Finish == Len(hist) = Depth /\ hist' = Append(hist, End)
-          /\ UNCHANGED <<now, stored, queue, tree, rootTs, issued, sths, roots, last>>
+          /\ UNCHANGED <<now, clk, stored, queue, tree, rootTs, sigc, issued, sths, roots, last>>
 ExportFinished == (Len(hist) = Depth + 1) => PrintT(<<"BEH", ToJson(SubSeq(hist, 1, Depth))>>)
+
+\* what goes wrong with a simulated request: mostly nothing
+SomeFault(S) == IF RandomElement(1..6) = 1 THEN RandomElement(S \ {"none"}) ELSE "none"
+\* get-sth signs: the signer is what fails most often there
+\* (a definition without parameters is a constant to TLC and would be drawn once: hence the unused parameter)
+SomeSTHFault(u) == IF RandomElement(1..4) = 1 THEN "sign"
+                ELSE IF RandomElement(1..6) = 1 THEN RandomElement(RpcFaults) ELSE "none"
+\* clients retry what failed: the request that follows a failed get-sth or submission is, every other time, the same
+\* request again (a submission possibly through the other front end) with nothing going wrong
+Failed == last.op \in {"GetSTH", "AddChain"} /\ last.reply.status >= 429
+\* ... and ask again what they were served: every fourth time a read was answered 200 the same front end gets the same
+\* request once more while the backend refuses the call (nothing remembered from the first answer may be served)
+Served == /\ last.op \in {"GetSTH", "GetConsistency", "GetProofByHash", "GetEntries", "GetEntryAndProof"}
+          /\ last.reply.status = 200
+Again(op, a, x) ==
+  CASE op = "GetSTH" -> GetSTH(a.fe, x)
+    [] op = "GetConsistency" -> GetConsistency(a.first, a.second, a.fe, x)
+    [] op = "GetProofByHash" -> GetProofByHash(a.cert, a.ts, a.size, a.fe, x)
+    [] op = "GetEntries" -> GetEntries(a.start, a.end, a.fe, x)
+    [] OTHER -> GetEntryAndProof(a.index, a.size, a.fe, x)
+\* a front end for a simulated request
+SomeFE(u) == RandomElement(FrontEnds)
+\* where a simulated clock goes: one tick on (as a running clock does), or anywhere
+SomeClock(f) == IF RandomElement(1..2) = 1 /\ clk[f] < MaxClock THEN clk[f] + 1
+                ELSE RandomElement((0..MaxClock) \ {clk[f]})
 
 \* weighted random walk, one successor per step (see check/BUILDING.md)
 SimNext ==
   \/ Finish
   \/ /\ Len(hist) < Depth
-     /\ \E kind \in {RandomElement(1..20)} :
-        CASE kind \in 1..6 -> \E c \in {RandomElement(Certs)} :
+     /\ \E kind \in {RandomElement(1..24)}, fe \in {SomeFE(0)}, retry \in {RandomElement(1..2)} :
+        IF Failed /\ retry = 1
+        THEN IF last.op = "GetSTH" THEN GetSTH(last.args.fe, "none")
+             ELSE AddChain(last.args.cert, last.args.ep, fe, "none")
+        ELSE IF Served /\ RandomElement(1..4) = 1
+        THEN \E x \in {RandomElement(RpcFaults)} : Again(last.op, last.args, x)
+        ELSE
+        CASE kind \in 1..6 -> \E c \in {RandomElement(Certs)}, x \in {SomeFault(AddFaults)} :
                                  AddChain(c, IF RandomElement(1..8) = 1
                                              THEN RandomElement(Endpoints)
-                                             ELSE IF c \in Precerts THEN "add-pre-chain" ELSE "add-chain")
-          [] kind \in 7..8 -> IF now < MaxClock THEN Tick ELSE GetSTH
+                                             ELSE IF c \in Precerts THEN "add-pre-chain" ELSE "add-chain", fe, x)
+          [] kind = 7 -> IF now < MaxClock THEN Tick ELSE \E x \in {SomeSTHFault(0)} : GetSTH(fe, x)
+          [] kind \in {8, 21, 22} -> \E t \in {SomeClock(fe)} : ClockSet(fe, t)
           [] kind \in 9..11 -> IF Len(queue) > 0 /\ Len(tree) < MaxTree
                                THEN \E k \in {RandomElement(1..(IF Len(queue) < MaxTree - Len(tree) THEN Len(queue) ELSE MaxTree - Len(tree)))},
                                        r \in {RandomElement(Rems)} : Sequence(k, r)
-                               ELSE GetSTH
-          [] kind = 12 -> IF rootTs.tick < now THEN \E r \in {RandomElement(Rems)} : Resign(r) ELSE GetSTH
-          [] kind = 13 -> GetSTH
-          [] kind = 14 -> \E f \in {RandomElement(Sizes)}, s \in {RandomElement(Sizes)} : GetConsistency(f, s)
-          [] kind = 15 -> \E s \in {RandomElement(0..Size)} : \E f \in {RandomElement(0..s)} : GetConsistency(f, s)
-          [] kind = 16 -> \E c \in {RandomElement(Certs)} :
+                               ELSE \E x \in {SomeSTHFault(0)} : GetSTH(fe, x)
+          [] kind = 12 -> IF rootTs.tick < now THEN \E r \in {RandomElement(Rems)} : Resign(r) ELSE GetSTH(fe, "none")
+          [] kind \in {13, 23, 24} -> \E x \in {SomeSTHFault(0)} : GetSTH(fe, x)
+          [] kind = 14 -> \E f \in {RandomElement(Sizes)}, s \in {RandomElement(Sizes)}, x \in {SomeFault(ReadFaults)} : GetConsistency(f, s, fe, x)
+          [] kind = 15 -> \E s \in {RandomElement(0..Size)}, x \in {SomeFault(ReadFaults)} : \E f \in {RandomElement(0..s)} : GetConsistency(f, s, fe, x)
+          [] kind = 16 -> \E c \in {IF Size > 0 /\ RandomElement(1..3) > 1 THEN tree[RandomElement(1..Size)] ELSE RandomElement(Certs)},
+                               x \in {SomeFault(ReadFaults)} :
                             \E t \in {IF stored[c] # None /\ RandomElement(1..5) > 1 THEN stored[c] ELSE RandomElement(0..MaxClock)},
-                               n \in {RandomElement(Sizes)} : GetProofByHash(c, t, n)
-          [] kind = 17 -> \E s \in {RandomElement(Sizes)}, e \in {RandomElement(Sizes)} : GetEntries(s, e)
-          [] kind = 18 -> \E s \in {RandomElement(0..Size)} : \E e \in {RandomElement(s..(MaxTree + 1))} : GetEntries(s, e)
-          [] kind = 19 -> \E n \in {RandomElement(Sizes)} : \E i \in {RandomElement(Sizes)} : GetEntryAndProof(i, n)
-          [] OTHER -> IF Size > 0 THEN \E n \in {RandomElement(1..Size)} : \E i \in {RandomElement(0..(n - 1))} : GetEntryAndProof(i, n)
-                      ELSE GetRoots
+                               n \in {IF Size > 0 /\ RandomElement(1..3) > 1 THEN RandomElement(1..Size) ELSE RandomElement(Sizes)} :
+                                 GetProofByHash(c, t, n, fe, x)
+          [] kind = 17 -> \E s \in {RandomElement(Sizes)}, e \in {RandomElement(Sizes)}, x \in {SomeFault(ReadFaults)} : GetEntries(s, e, fe, x)
+          [] kind = 18 -> \E s \in {RandomElement(0..Size)}, x \in {SomeFault(ReadFaults)} : \E e \in {RandomElement(s..(MaxTree + 1))} : GetEntries(s, e, fe, x)
+          [] kind = 19 -> \E n \in {RandomElement(Sizes)}, x \in {SomeFault(ReadFaults)} : \E i \in {RandomElement(Sizes)} : GetEntryAndProof(i, n, fe, x)
+          [] OTHER -> IF Size > 0 THEN \E n \in {RandomElement(1..Size)}, x \in {SomeFault(ReadFaults)} : \E i \in {RandomElement(0..(n - 1))} : GetEntryAndProof(i, n, fe, x)
+                      ELSE GetRoots(fe)
 =============================================================================
